@@ -33,16 +33,18 @@ Setup(n, base) ==
 
 Structured == {2^a : a \in 0..15} \cup {2^a + 2^b : a \in {0, 1, 5, 7, 13, 14, 15}, b \in {0, 2, 5, 12, 13, 15}} \cup {2^a - 1 : a \in 1..16}
               \cup {65536 - 2^a : a \in 0..15} \cup {21845, 43690, 255, 65280, 61680, 3855, 32769, 49152, 24576}
-ListSet == IF LISTS = "all" THEN 1..65535 ELSE Structured \ {0}
+\* "wide": every 29th list plus all lists with at most 2 or at least 15 registers (about 2.5k lists)
+Wide == {l \in 1..65535 : l % 29 = 0 \/ PopCnt(l) <= 2 \/ PopCnt(l) >= 15} \cup (Structured \ {0})
+ListSet == IF LISTS = "all" THEN 1..65535 ELSE IF LISTS = "wide" THEN Wide ELSE Structured \ {0}
 Bases == {<<0, 80>>, <<MM, MM - 15>>}
 AMs == {"IA", "IB", "DA", "DB"}
 
 Init == sc = [stage |-> 0]
 PickList == sc.stage = 0 /\ \E L \in ListSet : sc' = [stage |-> 1, regs |-> L]
 \* with all 2^16 lists only the PUSH/POP-shaped variants (base SP, write-back) are enumerated per list
-PickRest == sc.stage = 1 /\ \E ld \in BOOLEAN, am \in AMs, wb \in (IF LISTS = "all" THEN {TRUE} ELSE BOOLEAN),
-                              n \in (IF LISTS = "all" THEN {13} ELSE {5, 13}),
-                              b \in (IF LISTS = "all" THEN {<<0, 80>>} ELSE Bases) :
+PickRest == sc.stage = 1 /\ \E ld \in BOOLEAN, am \in AMs, wb \in (IF LISTS \in {"all", "wide"} THEN {TRUE} ELSE BOOLEAN),
+                              n \in (IF LISTS \in {"all", "wide"} THEN {13} ELSE {5, 13}),
+                              b \in (IF LISTS \in {"all", "wide"} THEN {<<0, 80>>} ELSE Bases) :
               sc' = [stage |-> 2, regs |-> sc.regs, load |-> ld, am |-> am, wback |-> wb, n |-> n, base |-> b]
 Next == PickList \/ PickRest
 Spec == Init /\ [][Next]_vars
